@@ -162,6 +162,16 @@ impl<R> ExtFut<R> {
     { unimplemented!() }
 }
 
+impl<T, E1> ExtFut<Result<T, E1>> {
+    // async { fut.await.map_err(|_| e) }
+    #[verifier::external_body]
+    pub fn map_err_<E2>(self, e: E2) -> (r: ExtFut<Result<T, E2>>)
+        ensures r.completes() == self.completes(), r.polled() == self.polled(),
+            self.value() matches Ok(v) ==> r.value() == Ok::<T, E2>(v),
+            self.value() is Err ==> r.value() == Err::<T, E2>(e),
+    { unimplemented!() }
+}
+
 // ---- time / runtime ---------------------------------------------------------------------------------------
 #[derive(Clone, Copy)]
 pub struct Duration { pub nanos: u128 }
@@ -189,3 +199,24 @@ impl Runtime {
 // vacuity guard: reachability probes `if vx_nondet() { assert(false); }` must all FAIL
 #[verifier::external_body]
 pub fn vx_nondet() -> (r: bool) { unimplemented!() }
+
+// ---- Into::into (A5: `impl<T, U: From<T>> Into<U> for T` and `impl<T> From<T> for T` of std) -----------------
+pub uninterp spec fn into_spec<A, B>(a: A) -> B;
+#[verifier::external_body]
+pub fn vx_into<A: Into<B>, B>(a: A) -> (b: B)
+    ensures b == into_spec::<A, B>(a)
+{ unimplemented!() }
+// reflexive conversion (`impl<T> From<T> for T`)
+pub axiom fn axiom_into_refl<A>(a: A)
+    ensures #[trigger] into_spec::<A, A>(a) == a;
+// blanket `impl<T, U: From<T>> Into<U> for T`: into = U::from, whose behaviour is `from_spec` where the impl obeys it
+pub axiom fn axiom_into_from<A, B: From<A>>(a: A)
+    ensures B::obeys_from_spec() ==> #[trigger] into_spec::<A, B>(a) == B::from_spec(a);
+
+// ---- DropGuard(closure) (R7): the guard value itself carries nothing; its Drop (= the closure body) is inlined by
+// the extractor at every exit where the guard is still live, `disarm` (= mem::forget) ends its life without effect.
+pub struct DropGuard { }
+impl DropGuard {
+    pub fn new_() -> DropGuard { DropGuard { } }
+    pub fn disarm(self) { }
+}
